@@ -19,7 +19,7 @@ from harness import tlc
 
 CFG = """SPECIFICATION Spec
 CONSTANTS NY = 2
- NX = 3
+ NX = 4
  Fixes = %s
  MaxLen = %d
 INVARIANT NoStale
@@ -82,6 +82,10 @@ def make_library(seed, diag_cls, par, level=0.0):
     base = np.cumsum(rng.normal(size=n)) * 2 + 100
     ys = [3 * base + rng.normal(size=n) * 0.2 + 5, 2 * base[::-1] + rng.normal(size=n) * 0.2 + 11]
     xs = [base + rng.normal(size=n) * 0.05, rng.normal(size=n) * 3 + 50, base[::-1] + rng.normal(size=n) * 0.05]
+    # the second treatment series is shorter (the control series are cut to the length of the current treatment series),
+    # and the fourth control series is constant (no regression fit exists)
+    ys[1] = ys[1][:n - 9]
+    xs.append(np.full(n, 37.0))
     if level:
       # the same shapes on top of a level that dwarfs the variation: two different series are then "close" in
       # relative terms although every derived quantity differs
@@ -89,10 +93,10 @@ def make_library(seed, diag_cls, par, level=0.0):
       xs = [v + level for v in xs]
     fresh = {}
     for yi in (1, 2):
-      for xi in (0, 1, 2, 3):
+      for xi in (0, 1, 2, 3, 4):
         d = diag_cls(ys[yi - 1], par)
         if xi:
-          d.x = xs[xi - 1]
+          d.x = xs[xi - 1][:len(ys[yi - 1])]
         fresh[(yi, xi)] = {q: flat(read(d, q)) for q in QUANTITIES + ['x', 'y']}
     oks = {fresh[(yi, xi)]['ok'] for yi in (1, 2) for xi in (1, 2, 3)}
     if oks != {True, False}:
@@ -125,7 +129,7 @@ def replay_behaviour(diag_cls, par, lib, hist):
     try:
       if a == 'setx':
         xv = int(arg)
-        d.x = None if xv == 0 else xs[xv - 1]
+        d.x = None if xv == 0 else xs[xv - 1][:len(ys[yv - 1])]
       elif a == 'sety':
         yv = int(arg)
         xv = 0
